@@ -1228,8 +1228,10 @@ def sc_c11(env, t, v, cfg):
                 continue
             if path and (V.type_at(t, v, path)[0][0] in ("ref", "uref") or behind_ref(t, v, path)):
                 continue
+            if not path and t[0] != "array":
+                continue  # (the array is what a top-level union reference refers to: reached through get(), not updated in place)
             node = V.get_at(t, obj, path) if path else obj
-            if node is None:
+            if node is None or not hasattr(node, "_shape"):
                 continue
             dims = [int(d) for d in node._shape]
             if int(np.prod(dims)) != 0:
